@@ -201,6 +201,16 @@ def _array(self, interp, args, kwargs, node):
 Lib.f_np__array = _array
 
 
+def _anp_array(self, interp, args, kwargs, node):
+    x = args[0]
+    if isinstance(x, CList) and x.items and all(isinstance(r, CList) for r in x.items):
+        return CList([CList(list(r.items), "ndarray") for r in x.items], "ndarray")      # nested lists -> 2-D array
+    return self.f_np__array(interp, args, kwargs, node)
+
+
+Lib.f_anp__array = _anp_array
+
+
 def install(interp_mod):
     Interp = interp_mod.Interp
     old_call = Interp.call
@@ -213,11 +223,15 @@ def install(interp_mod):
         if isinstance(fn, SOpaque) and fn.tag == "userfn":
             # an arbitrary user function func(vector, scalar) / func(scalar, scalar...): uninterpreted in all scalar components
             flat = []
-            for a in args:
+
+            def walk(a):
                 if isinstance(a, CList):
-                    flat.extend(a.items)
+                    for y in a.items:
+                        walk(y)
                 else:
                     flat.append(a)
+            for a in args:
+                walk(a)
             if not all(isinstance(x, SCALAR) for x in flat):
                 self.err(node, "user function applied to non-numeric arguments")
             F = user_fn(fn.payload, len(flat))
